@@ -1,14 +1,36 @@
 import XModel.Capstone
 import XModel.Link
 import XModel.Unique
+import XModel.Acyclic
 /-!
 # C01 — expression-defined locations always equal their definition on current data
+
+Full statement (properties.jsonl): after every completed manager operation, every location defined by an
+expression holds exactly the value of that expression evaluated on the current container contents — for all
+histories, all graph shapes, all nesting depths.
+
+What is proved, on the executable model `XModel/Manager.lean` that the correspondence check runs against
+the implementation:
+
+* `C01_set_value`, `C01_set_expr` — one completed assignment (plain value / expression) from a state
+  reachable through the API (`MInv`, C03) in which every definition holds, under *any* legal iteration order
+  of the sets involved (`ValidSched`), leaves every definition holding;
+* `C01_histories` — the same over histories of assignments, `unregister`, `cleanup`, `verify`, `refresh`;
+* `C01_decided` — with every hypothesis replaced by the Boolean test the driver evaluates line by line
+  (`goodRunB`: `scopeB`, `validSchedule`, the call completed): the number of generated histories that are
+  inside the theorem is *measured* (evidence key `in_theorem_scope`).
+
+The hypotheses `Scope` (H1: no cycle through two distinct tasks below the start set; H2: written locations
+pairwise prefix-incomparable; H3: no task reads what it writes; refs of at least two steps with canonical
+keys; no injected fault) are exactly where the property is *false* of the pinned code (known findings D1:
+sibling cycles through a shared owner, D8: root-level computed keys), see `C01_partial_scope_needed`.
+Function tasks, knobs, `load`, `register` and the in-place operators are outside these theorems
+(correspondence only).
 -/
 namespace Properties.C01
-open Store Push
+open Store Push Index Manager
 
-/-- one completed update: every expression task holds its definition afterwards (scheduling lemma
-    instantiated on container trees) -/
+/-- one completed update on abstract expression tasks (scheduling lemma on container trees) -/
 theorem C01_push_consistent (sem : Sem) (triggered : List ETask) (others : ETask → Prop) (σ σf : Val)
     (hrun : runAll? (exprSys sem) triggered σ = some σf)
     (hgood : ∀ t ∈ triggered, (exprSys sem).good t)
@@ -17,5 +39,76 @@ theorem C01_push_consistent (sem : Sem) (triggered : List ETask) (others : ETask
     (hord : List.Pairwise (fun t u => (exprSys sem).NI u t) triggered) :
     ∀ t, (others t ∨ t ∈ triggered) → ∃ v, eval sem σf t.expr = .ok v ∧ get σf t.target = .ok v :=
   push_consistent sem triggered others σ σf hrun hgood hothers hsafe hord
+
+/-- **`set_value(ref, value)` on the executable manager.** -/
+theorem C01_set_value (sched : Sched) (s : MState) (p : Path) (v : Val) (hi : MInv s) (hc : Consistent s)
+    (sc : Scope (preState s p) p)
+    (hvs : ValidSched (gOf (preState s p).idx) (findTaskids (preState s p).idx (chainR p))
+      (sched (findTaskids (preState s p).idx (chainR p))))
+    (s' : MState) (hok : setValue sched s p v = (s', none)) :
+    ∀ t ∈ s'.defs, ∃ w, eval pySem s'.store (toE t).expr = .ok w ∧ get s'.store t.id = .ok w :=
+  (setValue_consistent sched s p v hi hc sc hvs s' hok).1
+
+/-- **`set_value(ref, expression)` on the executable manager** (the new definition included). -/
+theorem C01_set_expr (sched : Sched) (s : MState) (p : Path) (e : Expr) (hi : MInv s) (hc : Consistent s)
+    (sc : Scope (defPart s p e) p)
+    (hvs : ValidSched (gOf (defPart s p e).idx) (findTaskids (defPart s p e).idx (chainR p))
+      (sched (findTaskids (defPart s p e).idx (chainR p))))
+    (s' : MState) (hok : setExpr sched s p e = (s', none)) :
+    ∀ t ∈ s'.defs, ∃ w, eval pySem s'.store (toE t).expr = .ok w ∧ get s'.store t.id = .ok w :=
+  (setExpr_consistent sched s p e hi hc sc hvs s' hok).1
+
+/-- **all histories** of in-scope, completed assignments and maintenance calls -/
+theorem C01_histories (sched : Sched) (cs : List Call) (s : MState) (hi : MInv s) (hc : Consistent s)
+    (hg : GoodRun sched s cs) : Consistent (applyAll sched s cs) :=
+  (goodRun_consistent sched cs s hi hc hg).1
+
+/-- the same with every hypothesis decided by the tests the driver runs on each line -/
+theorem C01_decided (sched : Sched) (cs : List Call) (s : MState) (hi : MInv s) (hc : Consistent s)
+    (h : goodRunB sched s cs = true) : Consistent (applyAll sched s cs) :=
+  Manager.C01_decided sched cs s hi hc h
+
+/-- the Boolean tests are sound for the propositional hypotheses -/
+theorem C01_tests_sound (s : MState) (hi : MInv s) (p : Path) :
+    (scopeB s p = true → Scope s p) ∧
+    (∀ π, validSchedule s.idx (chainR p) π = true → acyclicFrom s.idx (startOf s.idx (chainR p)) = true →
+      ValidSched (gOf s.idx) (findTaskids s.idx (chainR p)) π) :=
+  ⟨scopeB_sound s hi p, fun π h1 h2 => validSchedule_sound s.idx (chainR p) π h1 h2⟩
+
+/-! ### non-vacuity: a concrete history inside the theorem (a chain of two definitions, an update of a
+    source, a maintenance call, a definition overwritten by a value) -/
+section example_
+def da : Path := [.item (.str "d"), .item (.str "a")]
+def db : Path := [.item (.str "d"), .item (.str "b")]
+def dc : Path := [.item (.str "d"), .item (.str "c")]
+def de : Path := [.item (.str "d"), .item (.str "e")]
+def s0 : MState :=
+  { MState.init with store := .dict [(.str "d", .dict [(.str "a", .int 1), (.str "b", .int 2), (.str "c", .none), (.str "e", .none)])] }
+def hist : List Call :=
+  [.setExpr dc (.bin "Add" (.ref da) (.ref db)), .setExpr de (.bin "Mul" (.ref dc) (.ref da)),
+   .setValue da (.int 5), .cleanup, .setValue dc (.int 7)]
+theorem s0_inv : MInv s0 := MInv_of_sameGraph (s := MState.init) ⟨rfl, rfl, rfl⟩ MInv.init
+example : goodRunB id s0 hist = true := by decide
+theorem example_consistent : Consistent (applyAll id s0 hist) :=
+  C01_decided id hist s0 s0_inv (fun _ h => by cases h) (by decide)
+example : get (applyAll id s0 hist).store de = .ok (.int 35) := rfl
+
+/-- outside the scope the statement is false of the model too (and of the code: known finding D1): two
+    members of one nested container feeding each other — `d['n']['y'] = d['n']['x'] + 1`,
+    `d['n']['x'] = d['n']['z'] * 2`, then `d['n']['z'] = 5` with the depth-first order: both tasks write below
+    `d['n']` and read below it, the declared graph has the cycle x ⇄ y (H1 fails), and the completed run
+    leaves `d['n']['y'] = 3` although `d['n']['x'] = 10`. -/
+def nx : Path := [.item (.str "d"), .item (.str "n"), .item (.str "x")]
+def ny : Path := [.item (.str "d"), .item (.str "n"), .item (.str "y")]
+def nz : Path := [.item (.str "d"), .item (.str "n"), .item (.str "z")]
+def s1 : MState :=
+  { MState.init with store := .dict [(.str "d", .dict [(.str "n", .dict [(.str "x", .int 0), (.str "y", .int 0), (.str "z", .int 1)])])] }
+def histD1 : List Call :=
+  [.setExpr ny (.bin "Add" (.ref nx) (.lit (.int 1))), .setExpr nx (.bin "Mul" (.ref nz) (.lit (.int 2))), .setValue nz (.int 5)]
+theorem C01_partial_scope_needed :
+    goodRunB id s1 histD1 = false ∧
+    get (applyAll id s1 histD1).store nx = .ok (.int 10) ∧ get (applyAll id s1 histD1).store ny = .ok (.int 3) := by
+  refine ⟨by decide, rfl, rfl⟩
+end example_
 
 end Properties.C01
